@@ -32,8 +32,8 @@ Section Level.
     check_for_const fuel node n = COk cp n' -> cp_params cp = cp_params node.
   Proof.
     unfold check_for_const. intros H. cinv H. unfold resolve_or_panic in Hc.
-    destruct (fst (run fuel compile_env a true 0 [])) as [v|e| | |]; try discriminate H.
-    - destruct (contains_err v); apply cret_ok in H; destruct H as [<- _]; reflexivity.
+    destruct (run fuel compile_env a true 0 []) as [[v|e| | |] lg]; try discriminate H.
+    - destruct (runtime_requested lg || contains_err v); apply cret_ok in H; destruct H as [<- _]; reflexivity.
     - apply cret_ok in H. destruct H as [<- _]. reflexivity.
   Qed.
 
